@@ -402,6 +402,26 @@ theorem upAt_mono {tr : Trace} {h : Nat} {t t' : Int} (h1 : upAt tr h t = true) 
   obtain ⟨u, hu, h2, h3⟩ := h1
   exact ⟨u, hu, h2, by omega⟩
 
+theorem upBefore_iff {tr : Trace} {h : Nat} {t : Int} : upBefore tr h t = true ↔ ∃ u ∈ ups tr, u.2 = h ∧ u.1 < t := by
+  simp [upBefore]
+
+theorem upBefore_of_upAt {tr : Trace} {h : Nat} {t t' : Int} (h1 : upAt tr h t = true) (hlt : t < t') : upBefore tr h t' = true := by
+  rw [upAt_iff] at h1
+  rw [upBefore_iff]
+  obtain ⟨u, hu, h2, h3⟩ := h1
+  exact ⟨u, hu, h2, by omega⟩
+
+theorem upBefore_mono {tr : Trace} {h : Nat} {t t' : Int} (h1 : upBefore tr h t = true) (hle : t ≤ t') : upBefore tr h t' = true := by
+  rw [upBefore_iff] at h1 ⊢
+  obtain ⟨u, hu, h2, h3⟩ := h1
+  exact ⟨u, hu, h2, by omega⟩
+
+theorem upAt_of_not_upBefore {tr : Trace} {h : Nat} {t t' : Int} (h0 : upBefore tr h t = false) (h1 : upAt tr h t' = true) : t ≤ t' := by
+  by_cases hlt : t ≤ t'
+  · exact hlt
+  · rw [upBefore_of_upAt h1 (by omega)] at h0
+    cases h0
+
 theorem neverClosed_iff {tr : Trace} {h : Nat} : neverClosed tr h = true ↔ ∀ c ∈ closes tr, c.2 ≠ h := by
   simp [neverClosed]
 
